@@ -68,7 +68,7 @@ pub fn run(tier: Tier, seed: u64) -> i32 {
     report.space(&format!("every one of the C(n+4,4) ways to distribute byte strings of every length n <= {max_n} (3 contents each) over the five file arguments, Windows and Mac, against the single-buffer function and the reference"));
 
     // (2) block-edge lengths with all 4-tuples of cut points from {0,1,63,64,65,n-1,n}
-    let lens: Vec<usize> = vec![55, 56, 63, 64, 65, 119, 127, 128, 129, 1000];
+    let lens: Vec<usize> = vec![55, 56, 63, 64, 65, 119, 127, 128, 129, 192, 1000, 4096, 65_535, 65_536, 65_537, 200_000];
     lens.par_iter().for_each(|&n| {
         let data = refmodel::ctr_bytes(seed, "c17-edge", n);
         let mut pts: Vec<usize> = vec![0, 1, 63, 64, 65, n - 1, n].into_iter().filter(|p| *p <= n).collect();
@@ -181,6 +181,28 @@ pub fn run(tier: Tier, seed: u64) -> i32 {
         if w != want || m != want {
             viol(&report, "empty-files", json!({"empty_mask": mask}), format!("windows {} mac {} reference {}", hex(&w), hex(&m), hex(&want)));
         }
+        sens += 1;
+    }
+    // salts / keys with zero bytes at every position, all-zero and all-ones salt and key (HMAC key handling)
+    for bi in 0..16 {
+        let mut s2 = salt;
+        s2[bi] = 0;
+        for fcut in [[0usize, 0, 0, 0], [1, 3, 3, 9], [24, 24, 24, 24]] {
+            check_split(&report, &all, fcut, &s2, &key);
+            sens += 1;
+        }
+    }
+    for bi in 0..32 {
+        let mut k2 = key;
+        k2[bi] = 0;
+        check_split(&report, &all, [2, 5, 5, 11], &salt, &k2);
+        let mut k3 = key;
+        k3[bi] |= 0x80;
+        check_split(&report, &all, [2, 5, 5, 11], &salt, &k3);
+        sens += 2;
+    }
+    for (s2, k2) in [([0u8; 16], [0u8; 32]), ([0xFF; 16], [0xFF; 32]), ([0u8; 16], key), (salt, [0u8; 32])] {
+        check_split(&report, &all, [7, 12, 12, 21], &s2, &k2);
         sens += 1;
     }
     report.count("sensitivity_cases", sens);
